@@ -333,18 +333,39 @@ def all_kripkes(n, aps=('p', 'q')):
                    'L': {s: list(labs[s]) for s in states}}
 
 
+def alias_labels(K):
+    """re-install K's labelling through Kripke.replace_labelling_function with states of equal label set SHARING one set
+    object (a legitimate state of a Kripke object: the method stores the caller's dict as it is); for an even number of
+    distinct label sets the dict also carries an entry for an object that is not a state (e.g. one design-wide dict)"""
+    groups, L = {}, {}
+    for s in K.states():
+        key = frozenset(K.labels(s))
+        L[s] = groups.setdefault(key, set(key))
+    if len(groups) % 2 == 0:
+        L[10 ** 6 + 7] = set(a for ls in L.values() for a in ls) | {'p', 'q'}
+    K.replace_labelling_function(L)
+    return K
+
+
 def kd_py(kd):
-    return mk_py_kripke(kd['S'], kd['S0'], kd['R'], kd['L'])
+    K = mk_py_kripke(kd['S'], kd['S0'], kd['R'], kd['L'])
+    return alias_labels(K) if kd.get('alias') else K
 
 
 def kd_json(kd):
-    return {'S': list(kd['S']), 'S0': list(kd['S0']), 'R': [list(e) for e in kd['R']],
-            'L': {str(k): list(v) for k, v in kd['L'].items()}}
+    j = {'S': list(kd['S']), 'S0': list(kd['S0']), 'R': [list(e) for e in kd['R']],
+         'L': {str(k): list(v) for k, v in kd['L'].items()}}
+    if kd.get('alias'):
+        j['alias'] = 1          # labels installed with shared set objects (alias_labels)
+    return j
 
 
 def kd_from_json(j):
-    return {'S': j['S'], 'S0': j['S0'], 'R': [tuple(e) for e in j['R']],
-            'L': {int(k): v for k, v in j['L'].items()}}
+    kd = {'S': j['S'], 'S0': j['S0'], 'R': [tuple(e) for e in j['R']],
+          'L': {int(k): v for k, v in j['L'].items()}}
+    if j.get('alias'):
+        kd['alias'] = 1
+    return kd
 
 
 # ----------------------------------------------------------------------------------------
